@@ -133,6 +133,23 @@ static std::vector<Op> buildAlphabet(const std::string& name, Limits& L, const s
         A.push_back(opRate("POINT", 50.f, L)); A.push_back(opRate("ANALOG", 100.f, L));
         A.push_back(opLock("POINT", true)); A.push_back(opLock("EXTRA", false));
         A.push_back(opReload());
+    } else if (name == "wild") {    // C10 / C13 / C08 / C11 hold for EVERY call, also those the other statements exclude: the mutator alphabet without any shape guard
+        L.maxFrames = 3; L.maxPoints = 3; L.maxChans = 2;
+        for (auto n : {"A", "B", "A "}) A.push_back(opPoint(n, L));
+        for (auto n : {"a", "b"}) A.push_back(opAnalog(n, L));
+        for (float r : {0.f, 50.f, 100.f}) A.push_back(opRate("POINT", r, L));
+        for (float r : {0.f, 100.f, 20.f}) A.push_back(opRate("ANALOG", r, L));
+        A.push_back(opParam("NEWG", "X", pv("i3"), "d0", false, L)); A.push_back(opParam("POINT", "LABELS", pv("s2"), "d0", false, L)); A.push_back(opParam("POINT", "USED", pv("i7"), "d0", false, L)); A.push_back(opParam("ANALOG", "USED", pv("i7"), "d0", false, L)); A.push_back(opParam("POINT", "FRAMES", pv("i7"), "d0", false, L));   // hand-edited mandatory parameters
+        for (auto d : {"ok", "pt_missing", "pt_extra", "pt_renamed", "pt_dup", "pt_perm", "pt_none", "ch_missing", "ch_extra", "ch_renamed", "sub_missing", "sub_extra", "sub_ragged", "an_none", "empty"}) for (auto t : {"app", "0", "n+1"}) A.push_back(opFrame(d, t, 1, L));
+        for (auto w : {"both", "pt", "an"}) A.push_back(opFrameFree(w, 0, L));
+        A.push_back(opFrameEmpty(L));
+        A.push_back(opSubmitStored(0, "n", L)); A.push_back(opSubmitStored(1, "0", L));
+        for (auto d : {"ok", "ok2", "fewer", "more", "none", "nocol", "dup", "dup2", "ragged"}) A.push_back(opColPoint(d, 0, L));
+        for (auto d : {"ok", "ok2", "fewer", "more", "none", "nocol", "sub_fewer", "sub_more", "dup", "dup2", "ragged"}) A.push_back(opColAnalog(d, 0, L));
+        A.push_back(opParamBad("NEWB", true, false)); A.push_back(opParamBad("POINT", false, true));
+        A.push_back(opParamMandatoryBad("POINT", "RATE", "int")); A.push_back(opParamMandatoryBad("ANALOG", "USED", "string")); A.push_back(opParamMandatoryBad("POINT", "LABELS", "int")); A.push_back(opParamMandatoryBad("ANALOG", "RATE", "empty-float"));
+        A.push_back(opLock("NOPE", true));
+        A.push_back(opReload());
     } else if (name == "smoke") {
         A.push_back(opPoint("A", L)); A.push_back(opRate("POINT", 100.f)); A.push_back(opFrame("ok", "app", 0, L));
     } else { fprintf(stderr, "unknown alphabet %s\n", name.c_str()); exit(2); }
@@ -168,6 +185,7 @@ int main(int argc, char** argv) {
         if (alphabet == "frames") roots = {{"events", "events=2;first=5"}, {"noanalog", "agroup=empty;chans=0;points=1"}, {"first3", "first=3;chans=0"}};   // first frame number 3: header window 2..3 overlaps the indices count, count+1
         if (alphabet == "mut") roots = {{"events", "events=2;first=5"}, {"sparse", "ids=sparse;extra=all;order=paramsFirst"}, {"zeros", "zeros=7;prologue=0000;frames=1"}, {"noanalog", "agroup=empty;chans=0;points=1"}, {"onechan", "chans=1;points=1;frames=1"}, {"minimal", "optparams=minimal;chans=1;points=1;frames=1"}, {"analogonly", "points=0;frames=1"}};   // onechan: room for one more point and channel on a LOADED object (whose ANALOG group has no DESCRIPTIONS)
         if (alphabet == "c07") roots = {{"onechan", "chans=1;points=1;frames=1"}};
+        if (alphabet == "wild") roots = {{"onechan", "chans=1;points=1;frames=1"}, {"noanalog", "agroup=empty;chans=0;points=1"}, {"labels", "labels=fewer;alabels=more"}};
         if (alphabet == "build") roots = {{"events", "events=18;first=705"}, {"extra", "extra=all;descs=d127;locks=yes"}, {"str1d", "extra=str1d;ids=swapped"}, {"labels", "labels=more;alabels=fewer;points=3"}, {"noanalog", "agroup=empty;chans=0"}, {"block3", "pblock=3;zeros=1"}, {"analogonly", "points=0;frames=1"}, {"pointonly", "chans=0;frames=1"}};   // analogonly/pointonly: the other kind of data arrives by REPLACING the single stored frame
         if (alphabet == "params") roots = {{"described", "extra=all;locks=yes"}, {"sparse", "ids=sparse"}};
         if (alphabet == "lookup") roots = {{"labels", "labels=fewer;alabels=more;points=3"}, {"events", "events=2"}};
